@@ -109,7 +109,7 @@ class World:
 
 
 def execute(sc, ctx):
-    m = Model()
+    m = Model(seed=20260927)
     w = World(sc, ctx, m)
     ref = RefSched()
     sm = m.systems
